@@ -3,6 +3,8 @@
 //	-mode stress  seeded stress on the exported swarmutil.TellHub / AskHub / Queue:
 //	              p producers, r receivers, random cancels and closes, runtime.Gosched
 //	              injection, unique message ids, payload digests at callback entry/exit.
+//	-mode race    the receive / cancel / Tell race on swarms whose Receive is its own loop (udpswarm,
+//	              memswarm), from TLC-generated schedules (spec/UdpRecvGen.tla), every schedule repeated.
 //	-mode matrix  the close matrix on real swarm stacks, driven by TLC-generated phase
 //	              scripts (spec/HubsGen.tla); one child process per stack kind, so that the
 //	              goroutine-release check sees only that stack's goroutines.
@@ -353,7 +355,7 @@ func seedFromEnv() int64 {
 }
 
 func main() {
-	mode := flag.String("mode", "stress", "stress | matrix | matrix-child")
+	mode := flag.String("mode", "stress", "stress | matrix | matrix-child | race")
 	out := flag.String("out", "", "ndjson history file")
 	comps := flag.String("comps", "tellhub,askhub,queue", "stress: components")
 	windows := flag.Int("windows", 500, "stress: windows per component")
@@ -363,6 +365,7 @@ func main() {
 	stack := flag.String("stack", "", "matrix-child: stack kind")
 	from := flag.Int("from", 0, "matrix-child: first script index")
 	caseBase := flag.Int("casebase", 0, "first case id")
+	rounds := flag.Int("rounds", 5, "race: repetitions of every schedule")
 	flag.Parse()
 	if *out == "" {
 		fmt.Fprintln(os.Stderr, "-out required")
@@ -376,6 +379,8 @@ func main() {
 		err = runStress(*out, *comps, *windows, *workers, seed, *caseBase)
 	case "matrix":
 		err = runMatrix(*out, *scripts, *stacks, seed, *caseBase)
+	case "race":
+		err = runRace(*out, *scripts, *stacks, *rounds, *workers, *caseBase)
 	case "matrix-child":
 		err = runMatrixChild(*out, *scripts, *stack, *from, seed, *caseBase)
 	default:
